@@ -531,9 +531,9 @@ func (m *Machine) evalForm(form []Val, env *Env) []Val {
 			m.assign(symName(args[i]), v, env)
 		}
 		return single(v)
-	case "defvar", "defparameter":
+	case "defvar", "defparameter", "defconstant":
 		vn := symName(args[0])
-		if _, has := m.Globals[vn]; !has || name == "defparameter" {
+		if _, has := m.Globals[vn]; !has || name == "defparameter" || name == "defconstant" {
 			var v Val
 			if len(args) > 1 {
 				v = m.evalOne(args[1], env)
